@@ -13,6 +13,12 @@ Proof.
   destruct (n <? 4294967296); cbn [length]; rewrite be_encode_length; lia.
 Qed.
 
+Ltac pw256 :=
+  repeat match goal with
+         | H : context [256 ^ N.of_nat ?k] |- _ =>
+             let v := eval vm_compute in (256 ^ N.of_nat k) in change (256 ^ N.of_nat k) with v in H
+         end.
+
 Lemma head_bytes_len_bound m n (l : nat) :
   n < 256 ^ N.of_nat l -> (l = 1 \/ l = 2 \/ l = 4 \/ l = 8)%nat -> (length (head_bytes m n) <= 1 + l)%nat.
 Proof.
@@ -20,16 +26,10 @@ Proof.
   destruct (n <? 24) eqn:E1; [cbn [length]; lia|].
   destruct (n <? 256) eqn:E2; [cbn [length]; lia|].
   destruct (n <? 65536) eqn:E3.
-  { cbn [length]. rewrite be_encode_length. destruct Hl as [-> | [-> | [-> | ->]]]; try lia.
-    change (256 ^ N.of_nat 1) with 256 in Hn. lia. }
+  { cbn [length]. rewrite be_encode_length. destruct Hl as [-> | [-> | [-> | ->]]]; pw256; lia. }
   destruct (n <? 4294967296) eqn:E4.
-  { cbn [length]. rewrite be_encode_length. destruct Hl as [-> | [-> | [-> | ->]]]; try lia.
-    - change (256 ^ N.of_nat 1) with 256 in Hn. lia.
-    - change (256 ^ N.of_nat 2) with 65536 in Hn. lia. }
-  cbn [length]. rewrite be_encode_length. destruct Hl as [-> | [-> | [-> | ->]]]; try lia.
-  - change (256 ^ N.of_nat 1) with 256 in Hn. lia.
-  - change (256 ^ N.of_nat 2) with 65536 in Hn. lia.
-  - change (256 ^ N.of_nat 4) with 4294967296 in Hn. lia.
+  { cbn [length]. rewrite be_encode_length. destruct Hl as [-> | [-> | [-> | ->]]]; pw256; lia. }
+  cbn [length]. rewrite be_encode_length. destruct Hl as [-> | [-> | [-> | ->]]]; pw256; lia.
 Qed.
 
 Lemma read_head_min bs m n r : bytes_ok bs = true -> read_head bs = Ok (m, n) r ->
@@ -127,6 +127,7 @@ Proof.
   destruct (read_expect_min mUInt r1 sch r2 Hb1 E2) as (_ & Hb2 & Hl2).
   assert (Hh2 : (1 <= length (head_bytes mUInt sch))%nat) by (unfold head_bytes; destruct (sch <? 24); [cbn; lia|]; destruct (sch <? 256); [cbn; lia|]; destruct (sch <? 65536); [cbn; lia|]; destruct (sch <? 4294967296); cbn; lia).
   assert (Ha : length (enc_arr 2) = 1%nat) by reflexivity.
+  assert (Harr : length (head_bytes mArray 2) = 1%nat) by reflexivity. rewrite Harr in Hl1.
   destruct (sch =? 1) eqn:Es1.
   - destruct (read_head r2) as [[m n] r3| |] eqn:E3; cbn [bind] in H; try discriminate.
     destruct (read_head_min r2 m n r3 Hb2 E3) as (Hn3 & Hb3 & Hl3).
